@@ -21,7 +21,7 @@ cd /verif
 RES=""
 for P in "$@"; do
   cp evidence/$P.json /tmp/.ev.$P 2>/dev/null
-  out=$(bin/check $P 2>&1); rc=$?
+  out=$(timeout 1500 bin/check $P 2>&1); rc=$?
   echo "-- $P exit=$rc"; echo "$out" | grep -v "^  rule" | head -4 | cut -c1-300
   RES="$RES $P=$rc"
   [ -f /tmp/.ev.$P ] && mv /tmp/.ev.$P evidence/$P.json
